@@ -126,6 +126,10 @@ func (r *coreRun) logA(l *slog.Entry, ev coreEvent, rec map[string]any) {
 		case "Logit":
 			l.Logit(ctx, lvl, msg, args...)
 		case "Println":
+			if ev.Mc == "none" && len(args) == 0 {
+				l.Println() // no argument at all
+				break
+			}
 			// NOTE first element of args is decoded as the message; it may be of any kind
 			if len(ev.Args) > 0 && ev.Args[0] != "key" && ev.Args[0] != "str" && ev.Args[0] != "ekey" {
 				l.Println(args...) // non-string first argument
@@ -137,6 +141,10 @@ func (r *coreRun) logA(l *slog.Entry, ev coreEvent, rec map[string]any) {
 		case "pkg.ctx":
 			callPkgCtxVerb(ctx, lvl, msg, args)
 		case "pkg.Println":
+			if ev.Mc == "none" && len(args) == 0 {
+				slog.Println()
+				break
+			}
 			if len(ev.Args) > 0 && ev.Args[0] != "key" && ev.Args[0] != "str" && ev.Args[0] != "ekey" {
 				slog.Println(args...)
 			} else {
